@@ -123,5 +123,5 @@ class Result:
             "violations": len(self.violations),
         }
         with open(os.path.join(EVIDENCE_DIR, self.prop + ".json"), "w") as f:
-            json.dump(ev, f, indent=1)
+            json.dump(ev, f, indent=1, default=lambda o: o.decode("latin1") if isinstance(o, (bytes, bytearray)) else str(o))
         return ev
